@@ -491,6 +491,15 @@ class GriddedPSFModel(ModelGridPlotMixin, Fittable2DModel):
         xi = np.clip(xi, x0, x1)
         yi = np.clip(yi, y0, y1)
 
+        # A grid with a single column (row) has x0 == x1 (y0 == y1). Give
+        # such a zero-width cell unit width so that all of the weight
+        # along that axis goes to the single column (row) instead of
+        # computing 0 / 0.
+        if x1 == x0:
+            x1 = x0 + 1.0
+        if y1 == y0:
+            y1 = y0 + 1.0
+
         norm = (x1 - x0) * (y1 - y0)
         # lower-left, lower-right, upper-left, upper-right
         return np.array([(x1 - xi) * (y1 - yi), (xi - x0) * (y1 - yi),
